@@ -20,7 +20,7 @@ LEVEL = "model_checking"
 FUNCTIONS = [("thejoker/data_helpers.py", "validate_prepare_data"), ("thejoker/data.py", "RVData.__init__"),
              ("thejoker/likelihood_helpers.py", "get_constant_term_design_matrix"), ("thejoker/likelihood_helpers.py", "get_trend_design_matrix")]
 ASSUMPTIONS = [
-    "numpy argsort without kind: ANY sorting permutation; kind='stable': the unique stable one; np.unique: sorted distinct values; concatenate/boolean-mask assignment/vander/hstack by their documented semantics",
+    "numpy argsort: the stable sorting permutation (numpy's default introsort is an insertion sort below 16 elements, and all shapes are smaller; kind='stable' likewise); np.unique: sorted distinct values; concatenate/boolean-mask assignment/vander/hstack by their documented semantics",
     "velocities are used as pairwise-distinct labels to identify observations (no code under test branches on a velocity)",
     "all input cells finite; sources without covariance matrices (a covariance source must raise: asserted in C18)",
     "bounds: <= 3 surveys, <= 4 epochs in total (quick), <= 3 surveys of <= 3 epochs with total <= 6 (thorough); poly_trend <= 3",
@@ -75,11 +75,17 @@ def run_shape(shape, tier):
     # data_helpers imports RVData lazily from .data: make sure it resolves to the shim-loaded module
     RVData = st.data.RVData
     vpd = st.data_helpers.validate_prepare_data
+    # numpy's default (intro)sort handles fewer than 16 elements by insertion sort, i.e. stably; every shape here is
+    # smaller, so equal epochs keep their input order exactly as they do on the real build
+    symnp.DEFAULT_SORT_STABLE = True
     K = len(shape["sizes"])
     ptrend = shape["poly_trend"]
 
+    state = {}
+
     def harness():
         srcs, cells = _mk(shape, st, RVData)
+        state["cells"] = cells
         if shape["input"] == "single":
             data = srcs[0]
             keys = [0]
@@ -100,8 +106,9 @@ def run_shape(shape, tier):
             r, _, _ = path.check(core.SB(z3.BoolVal(False)))
             twin = twin or r == "sat"
             if path.raised is not None:
+                d0 = _describe(shape, state["cells"])
                 sink.check(path, "no_exception", core.SB(z3.BoolVal(False)), site="validate_prepare_data",
-                           describe=lambda m: {"raised": repr(path.raised)[:300]})
+                           describe=lambda m: dict(d0(m), raised=repr(path.raised)[:300]))
                 continue
             cells, keys, all_data, ids, trend_M = path.result
             _spec(sink, path, shape, cells, keys, all_data, ids, trend_M, res)
@@ -152,9 +159,9 @@ def _spec(sink, path, shape, cells, keys, all_data, ids, trend_M, res):
     cl.append(z3.And([L(t_out[r]) <= L(t_out[r + 1]) for r in range(ntot - 1)]) if ntot > 1 else z3.BoolVal(True))
     sink.check(path, "union", core.SB(z3.Implies(distinct, z3.And(cl))), site="validate_prepare_data", describe=desc)
     # mask of the recorded finding "ids stay in concatenation order": it cannot manifest when the surveys do not
-    # interleave in time (every epoch of source k strictly before every epoch of source k+1, in input order)
+    # interleave in time (every epoch of source k not after any epoch of source k+1, in input order; equal boundary epochs allowed)
     blocks = [c[0] for c in cells]
-    noninter = z3.And([L(a) < L(b) for k in range(K - 1) for a in blocks[k] for b in blocks[k + 1]]) if K > 1 else z3.BoolVal(True)
+    noninter = z3.And([L(a) <= L(b) for k in range(K - 1) for a in blocks[k] for b in blocks[k + 1]]) if K > 1 else z3.BoolVal(True)
 
     def masked_check(name, claim, site):
         """first under the mask (any failure there is a NEW violation), then unrestricted (site tagged |interleaved)"""
